@@ -151,7 +151,7 @@ def check(repo, tier):
             return sc.call(entry, x, phi, add_one=par['add_one'], single_core=single_core)
         scen = f'{which}({", ".join(f"{k}={v}" for k, v in par.items())})'
         full_stores = None
-        for ch, sc, res, exc in l2.explore(repo, lambda sc: call(sc), typed=False):
+        for ch, sc, res, exc in l2rules.explore_data(run, 'C15', 'D1', repo, lambda sc: call(sc), scen, {MOD}, typed=False):
             if exc is not None:
                 run.oblige('D1', (entry, scen), False)
                 l2rules.raised_finding(run, 'C15', 'D1', repo, entry, scen, exc)
@@ -185,7 +185,7 @@ def check(repo, tier):
             continue
         for i in range(len(full_stores)):
             sscen = f'{scen}, single_core={i}'
-            for ch, sc, res, exc in l2.explore(repo, lambda sc: call(sc, single_core=i), typed=False):
+            for ch, sc, res, exc in l2rules.explore_data(run, 'C15', 'D1', repo, lambda sc: call(sc, single_core=i), scen, {MOD}, typed=False):
                 if exc is not None:
                     run.oblige('D2', (entry, sscen), False)
                     l2rules.raised_finding(run, 'C15', 'D2', repo, entry, sscen, exc)
